@@ -725,6 +725,11 @@ struct TemplateCore {
                             LoopTag &tag  = tag_bit->GetLoopTag();
                             tag.EndOffset = (finder.GetOffset() - TagPatterns::LoopSuffixLength);
                             loop_tag      = tag.Parent;
+
+                            if (tag.EndOffset < (tag.Offset + tag.ContentOffset)) {
+                                // The closing tag starts before the content: not a loop.
+                                storage->Drop(SizeT{1});
+                            }
                         }
                     }
 
